@@ -43,6 +43,7 @@ struct origin_conn
 
 struct proxy_run
 {
+	std::int64_t boundaries = 0, stop_k = -1;
 	recorder& rec;
 	pconfig cfg;
 	std::unique_ptr<sim::simulation> sim;
@@ -314,8 +315,16 @@ struct proxy_run
 			});
 		}
 		{ json::object c; c["e"] = "Cfg"; c["reqs"] = cl; rec.emit(c); }
+		stop_k = geti(prog, "stop_k", -1);
 		sim->verif_step_hook = [this](int kind) {
 			if (kind != 1 && ++steps > 2000000 && !livelock) { livelock = true; rec.line("{\"e\":\"Livelock\"}"); throw livelock_error(); }
+			// stop() at an arbitrary boundary between two handler executions
+			if (kind != 1 && ++boundaries == stop_k && proxy)
+			{
+				std::int64_t t = rec.sync();
+				json::object e; e["e"] = "Stop"; e["t"] = t; e["k"] = stop_k; rec.emit(e);
+				proxy->stop();
+			}
 		};
 		std::int64_t stop_at = geti(prog, "stop_at", -1);
 		if (stop_at >= 0) at(stop_at, [this]() {
@@ -354,6 +363,7 @@ int record_proxy(int argc, char** argv)
 		std::fflush(tf);
 		result res;
 		res.extra["events"] = rec.events - before;
+		res.extra["boundaries"] = r.boundaries;
 		if (r.livelock) res.fail(-1, "livelock", "step budget exceeded");
 		return res;
 	});
